@@ -295,9 +295,12 @@ func (s *Server) handleRPCFreeSectors(stream net.Conn) error {
 
 	oldSubtreeHashes, oldLeafHashes := rhp4.BuildFreeSectorsProof(state.Roots, req.Indices)
 
-	// modify the sector roots
+	// modify a copy of the sector roots: the slice handed out by the contract
+	// lock belongs to the contractor and must stay untouched until the renter
+	// has signed and the revision is persisted.
 	//
 	// NOTE: must match the behavior of BuildFreeSectorsProof
+	state.Roots = append([]types.Hash256(nil), state.Roots...)
 	for i, n := range req.Indices {
 		state.Roots[n] = state.Roots[len(state.Roots)-i-1]
 	}
